@@ -3,19 +3,28 @@
 From Coq Require Import List Bool NArith PeanoNat.
 Import ListNotations.
 Require Import PV.Binder.Kind PV.Binder.Sig PV.Binder.Bind PV.Binder.SigAssign.
-Require Import PV.Gen.BinderShape.
+Require Import PV.Binder.BindCore PV.Gen.BinderShape.
 
 (* the final checks of bind_arguments as the source states them now = the model's *)
-Lemma gen_finish_is_model : forall a st, gen_finish a st = finish_with eka a st.
-Proof. intros a st. unfold gen_finish, finish_with. rewrite ?andb_assoc. reflexivity. Qed.
+Lemma has_extra_kw_unconsumed : forall a st, has_extra_kw a st = negb (is_nil (unconsumed a (kcons st))).
+Proof.
+  intros a st. unfold has_extra_kw, unconsumed. induction (map fst (keywords a)) as [|k l IH]; [reflexivity|].
+  cbn [existsb filter]. destruct (negb (memN k (kcons st))); [reflexivity|exact IH].
+Qed.
+
+Lemma gen_finish_is_model : forall a st, gen_finish a (core st) = finish_with eka a st.
+Proof.
+  intros a st. unfold gen_finish, finish_with, core. cbn [g_pidx g_kc g_sac g_skc g_eka].
+  rewrite has_extra_kw_unconsumed, ?andb_assoc. reflexivity.
+Qed.
 
 Lemma bind_uses_generated_finish : forall s a,
   bind s a = match bind_params a init_state s with
              | None => None
-             | Some st => if gen_finish a st then Some (rev (bound st)) else None
+             | Some st => if gen_finish a (core st) then Some (rev (bound st)) else None
              end.
 Proof.
-  intros s a. unfold bind, bind_with. destruct (bind_params a init_state s); [|reflexivity].
+  intros s a. unfold bind, bind_with. destruct (bind_params a init_state s) as [b|]; [|reflexivity].
   rewrite <- (gen_finish_is_model a b). reflexivity.
 Qed.
 
@@ -35,4 +44,80 @@ Proof.
   intros e a. unfold sca. destruct (sca_loop a 0 _ e) as [st|]; [|reflexivity].
   assert (forallb (gen_extra_required_ok st) a = forallb (extra_required_ok st) a) as ->; [|reflexivity].
   induction a as [|q r IH]; [reflexivity|]. cbn [forallb]. rewrite IH, gen_extra_required_is_model. reflexivity.
+Qed.
+
+(* ---------- the per-kind arms of the loop, as the source states them now ---------- *)
+From Coq Require Import Lia.
+
+Theorem gen_step_is_model : forall a st p, gen_step a (core st) p = step_core a st p.
+Proof.
+  intros a st p. unfold gen_step, step_core, step, core, last_position, kw_mem, kw_dp, unconsumed, bind1.
+  cbn [g_pidx g_kc g_sac g_skc g_eka].
+  destruct (pkind p).
+  - (* PO *)
+    destruct (pidx st <? length (positionals a)); [destruct (nth (pidx st) (positionals a) true)|];
+      destruct (pdefault p), (star_args a); reflexivity.
+  - (* POK *)
+    destruct (pidx st <? length (positionals a)); [destruct (nth (pidx st) (positionals a) true)|];
+      destruct (kw_lookup (pname p) (keywords a)) as [[|]|];
+      destruct (pdefault p), (star_args a), (star_kwargs a), (skc st); reflexivity.
+  - (* VP *)
+    destruct (star_args a); [reflexivity|].
+    destruct (length (positionals a) - pidx st); reflexivity.
+  - (* KO *)
+    destruct (kw_lookup (pname p) (keywords a)) as [[|]|];
+      destruct (pdefault p), (star_kwargs a); reflexivity.
+  - (* VK *)
+    destruct (star_kwargs a); [reflexivity|].
+    destruct (filter (fun n => negb (memN n (kcons st))) (map fst (keywords a))); reflexivity.
+Qed.
+
+(* the whole loop, driven by the generated arms, computes the core of the model's loop *)
+Fixpoint gen_loop (a : actuals) (g : gstate) (s : sig) : option (gstate * list position) :=
+  match s with
+  | [] => Some (g, [])
+  | p :: r =>
+      match gen_step a g p with
+      | None => None
+      | Some (g', pos) =>
+          match gen_loop a g' r with
+          | None => None
+          | Some (g'', l) => Some (g'', pos :: l)
+          end
+      end
+  end.
+
+Lemma core_determines_step : forall a st1 st2 p,
+  core st1 = core st2 -> step_core a st1 p = step_core a st2 p.
+Proof. intros a st1 st2 p H. rewrite <- !gen_step_is_model, H. reflexivity. Qed.
+
+Theorem gen_loop_is_model : forall a s st,
+  match bind_params a st s with
+  | Some st' => exists l, gen_loop a (core st) s = Some (core st', l)
+  | None => gen_loop a (core st) s = None
+  end.
+Proof.
+  intros a. induction s as [|p r IH]; intros st; cbn [bind_params gen_loop].
+  - eauto.
+  - rewrite gen_step_is_model. unfold step_core.
+    destruct (step a st p) as [st1|]; [|reflexivity].
+    specialize (IH st1). destruct (bind_params a st1 r) as [st'|].
+    + destruct IH as [l Hl]. rewrite Hl. eauto.
+    + rewrite IH. reflexivity.
+Qed.
+
+(* the verdict of the binder, computed entirely by code generated from the source:
+   initial state, generated arms, generated final checks *)
+Theorem accepts_is_generated : forall s a,
+  accepts s a = match gen_loop a (mkG 0 [] false false false) s with
+                | Some (g, _) => gen_finish a g
+                | None => false
+                end.
+Proof.
+  intros s a. unfold accepts. rewrite bind_uses_generated_finish.
+  pose proof (gen_loop_is_model a s init_state) as H.
+  change (core init_state) with (mkG 0 [] false false false) in H.
+  destruct (bind_params a init_state s) as [st|].
+  - destruct H as [l Hl]. rewrite Hl. destruct (gen_finish a (core st)); reflexivity.
+  - rewrite H. reflexivity.
 Qed.
